@@ -334,3 +334,72 @@ Proof. intros H. now apply (dist_angle_zero_iff a a H H). Qed.
 Theorem triangle_inequality_partial (a c : M3R) : SO3 a -> SO3 c ->
   dist_angle a c <= dist_angle a a + dist_angle a c /\ dist_angle a c <= dist_angle a c + dist_angle c c.
 Proof. intros Ha Hc. rewrite !dist_angle_self by assumption. lra. Qed.
+
+
+(* ---------- group laws of SE(3) and Sim(3) as the helpers realise them ---------- *)
+Lemma se3_product_closed (a b : PoseR) : SE3 a -> SE3 b -> SE3 (pmul a b).
+Proof. apply SE3_pmul. Qed.
+Lemma se3_inverse_closed (a : PoseR) : SE3 a -> SE3 (se3_inverse a).
+Proof. apply SE3_pinv. Qed.
+Lemma se3_inverse_involutive (p : PoseR) : SE3 p -> se3_inverse (se3_inverse p) = p.
+Proof.
+  intros [[_ O] _]. unfold se3_inverse. apply Pose_ext; cbn [pinv prot ptr]; [apply mt_mt|].
+  rewrite mt_mt, mv_vopp, <- mv_mm, O, mv_I. destruct (ptr p); v3eq.
+Qed.
+Lemma se3_inverse_of_product (a b : PoseR) : SE3 a ->
+  se3_inverse (pmul a b) = pmul (se3_inverse b) (se3_inverse a).
+Proof. intros [O _]. unfold se3_inverse. now apply pinv_pmul. Qed.
+Lemma se3_inverse_unique (p q : PoseR) : SE3 p -> pmul q p = pI -> q = se3_inverse p.
+Proof.
+  intros H E. rewrite <- (pmul_I_r q), <- (se3_inverse_right p H), <- pmul_assoc, E. apply pmul_I_l.
+Qed.
+Lemma relative_se3_left_invariant (c a b : PoseR) : SE3 c ->
+  relative_se3 (pmul c a) (pmul c b) = relative_se3 a b.
+Proof. intros [O _]. unfold relative_se3. now apply prel_left_invariant. Qed.
+Lemma relative_se3_chain (a b c : PoseR) : SE3 b ->
+  pmul (relative_se3 a b) (relative_se3 b c) = relative_se3 a c.
+Proof.
+  intros H. rewrite !relative_se3_def. rewrite pmul_assoc, <- (pmul_assoc b), (se3_inverse_right b H), pmul_I_l.
+  reflexivity.
+Qed.
+Lemma relative_se3_inverse (a b : PoseR) : SE3 a -> SE3 b ->
+  se3_inverse (relative_se3 a b) = relative_se3 b a.
+Proof.
+  intros Ha Hb. rewrite !relative_se3_def. rewrite se3_inverse_of_product by (now apply se3_inverse_closed).
+  now rewrite se3_inverse_involutive.
+Qed.
+Lemma relative_se3_recovers (a b : PoseR) : SE3 a -> pmul a (relative_se3 a b) = b.
+Proof. intros H. rewrite relative_se3_def, <- pmul_assoc, (se3_inverse_right a H). apply pmul_I_l. Qed.
+Lemma relative_so3_chain (a b c : M3R) : SO3 b ->
+  mm (relative_so3 a b) (relative_so3 b c) = relative_so3 a c.
+Proof.
+  intros [[_ O] _]. unfold relative_so3. rewrite mm_assoc, <- (mm_assoc b), O, mm_I_l. reflexivity.
+Qed.
+Lemma relative_so3_closed (a b : M3R) : SO3 a -> SO3 b -> SO3 (relative_so3 a b).
+Proof. intros Ha Hb. unfold relative_so3. apply SO3_mm; [now apply SO3_mt|exact Hb]. Qed.
+
+(* Sim(3): products of similarity matrices are similarity matrices with the product scale, the
+   rotation product and the composed translation; a similarity acts on a point as s R x + t *)
+Lemma sim3_product (r1 r2 : M3R) (t1 t2 : V3R) (s1 s2 : R) :
+  pmul (sim3 r1 t1 s1) (sim3 r2 t2 s2) = sim3 (mm r1 r2) (vadd (vscale s1 (mv r1 t2)) t1) (s1 * s2).
+Proof.
+  unfold sim3, pmul. cbn [prot ptr]. apply Pose_ext; cbn [prot ptr].
+  - now rewrite mm_mscale_l, mm_mscale_r, mscale_mscale.
+  - now rewrite mv_mscale.
+Qed.
+Lemma sim3_scale_of_product (r1 r2 : M3R) (t1 t2 : V3R) (s1 s2 c : R) : SO3 r1 -> SO3 r2 ->
+  c * c * c = det (prot (pmul (sim3 r1 t1 s1) (sim3 r2 t2 s2))) -> c = s1 * s2.
+Proof.
+  intros H1 H2 Hc. rewrite sim3_product in Hc. eapply sim3_scale_recovered; [|exact Hc]. now apply SO3_mm.
+Qed.
+Lemma sim3_inverse_is_sim3 (r : M3R) (t : V3R) (s : R) : s <> 0 ->
+  sim3_inverse_with s (sim3 r t s) = sim3 (mt r) (vopp (mv (mt r) (vscale (1 / s) t))) (1 / s).
+Proof. intros Hs. now rewrite sim3_inverse_with_eq. Qed.
+Lemma sim3_unit_scale_is_se3 (r : M3R) (t : V3R) : SO3 r -> SE3 (sim3 r t 1) /\ sim3 r t 1 = mkPose r t.
+Proof. intros H. unfold sim3, SE3. cbn [prot]. rewrite mscale_1. split; [exact H|reflexivity]. Qed.
+Lemma sim3_inverse_unit_scale_is_se3_inverse (r : M3R) (t : V3R) :
+  sim3_inverse_with 1 (sim3 r t 1) = se3_inverse (mkPose r t).
+Proof.
+  rewrite sim3_inverse_with_eq by lra. unfold se3_inverse, pinv. cbn [prot ptr].
+  replace (1 / 1) with 1 by field. now rewrite mscale_1, vscale_1.
+Qed.
